@@ -92,12 +92,14 @@ Proof. exact config_env_names_distinct. Qed.
 
 (* DbConfig.Validate: a nil section is refused; a section is accepted iff the engine is sqlite with a
    non-empty path or postgres with host, port, user and database name set, and, when the prepared database is
-   enabled, its path is non-empty and the file exists - provided os.Stat answered (found / does not exist) *)
+   enabled, its path is non-empty and the file exists (os.Stat succeeds) - for EVERY answer of os.Stat.
+   (History: before fix commit 63c3b28 fileExists was !os.IsNotExist(err) and this equivalence was refuted
+   for Stat errors other than ENOENT; the witnesses stay in corpus/C20.) *)
 Theorem C20_db_validate_nil : forall st, db_validate None st <> Accept.
 Proof. exact db_validate_nil_refused. Qed.
 
 Theorem C20_db_validate_iff :
-  forall c st, st <> StatError -> (db_validate (Some c) st = Accept <-> db_ok c st).
+  forall c st, db_validate (Some c) st = Accept <-> db_ok c st.
 Proof. exact db_validate_iff. Qed.
 
 (* every valid section is accepted, for every answer of os.Stat *)
@@ -108,8 +110,8 @@ Proof. exact db_validate_complete. Qed.
 Theorem C20_db_validate_order :
   forall c st,
     (prepared c = true -> prepared_path c = "" -> db_validate (Some c) st = RejPreparedPathEmpty)
-    /\ (prepared c = true -> prepared_path c <> "" -> st = NotExist -> db_validate (Some c) st = RejPreparedMissing)
-    /\ ((prepared c = false \/ (prepared_path c <> "" /\ st <> NotExist)) ->
+    /\ (prepared c = true -> prepared_path c <> "" -> st <> Found -> db_validate (Some c) st = RejPreparedMissing)
+    /\ ((prepared c = false \/ (prepared_path c <> "" /\ st = Found)) ->
         db_validate (Some c) st =
         if String.eqb (engine c) "sqlite" then (if is_empty (sqlite_path c) then RejSqliteEmpty else Accept)
         else if String.eqb (engine c) "postgres" then
@@ -117,13 +119,6 @@ Theorem C20_db_validate_order :
            then RejPostgresIncomplete else Accept)
         else RejUnsupported).
 Proof. exact db_validate_order. Qed.
-
-(* the unrestricted statement
-     forall c st, db_validate (Some c) st = Accept <-> db_ok c st
-   is false for the code as it is (known finding prepared-stat-error-accepted) *)
-Theorem C20_db_validate_iff_refuted :
-  ~ (forall c st, db_validate (Some c) st = Accept <-> db_ok c st).
-Proof. exact db_validate_iff_refuted. Qed.
 
 (* the boolean used as the spec oracle is the declarative statement *)
 Theorem C20_db_okb_iff : forall c st, db_okb c st = true <-> db_ok c st.
@@ -144,5 +139,4 @@ Print Assumptions C20_db_validate_nil.
 Print Assumptions C20_db_validate_iff.
 Print Assumptions C20_db_validate_complete.
 Print Assumptions C20_db_validate_order.
-Print Assumptions C20_db_validate_iff_refuted.
 Print Assumptions C20_db_okb_iff.
